@@ -70,7 +70,8 @@ def run_driver(ctx, scens, nrandom, tag="t"):
         elif e["ev"] == "End":
             mb = e.get("mixatblock", -1)
             if cur["mixafter"] and mb >= 0:
-                cur["mixlo"], cur["mixhi"] = mb, mb + 2
+                # old mix allowed up to the block that may have been on its way when the request returned (measured, not assumed)
+                cur["mixlo"], cur["mixhi"] = mb, max(mb, e.get("mixdoneblock", mb)) + 1
             elif cur["mixafter"]:
                 cur["mixlo"], cur["mixhi"] = 0, 10 ** 6   # the request was never answered (source ended first): either mix is acceptable
     for e in events:
